@@ -259,6 +259,29 @@ def run(rep, facts, tier):
             'context_close looks at the whole flow stack (%s): inside a word definition a nested block is emitted as if the definition were '
             'its enclosing construct' % ', '.join(sorted({short(ev['callee']) for ev in whole}) or ['no floored read found']),
             cc.name, (whole or floored or [{'at': cc.j['span']}])[0]['at'])
+    # the block's results are what lies above the block's OWN floor: the loop that turns them into literals compares the depth
+    # with the floor of the context that is closing, not with the enclosing one's (under eval that one is 0: the loop would
+    # reach values left by earlier sources)
+    import re as _re
+    n_fl = 0
+    wrong_floor = []
+    for bb in cc.reachable_blocks():
+        br = bool_branch(cc, bb)
+        c = cmp_of(br[0]) if br else None
+        if not c:
+            continue
+        sa, sb = expr_str(c[1], -12), expr_str(c[2], -12)
+        if not (('data_stack' in sa and 'ds_len' in sb) or ('data_stack' in sb and 'ds_len' in sa)):
+            continue
+        n_fl += 1
+        fl = sb if 'ds_len' in sb else sa
+        if not _re.fullmatch(r'\(\*arg\d+\)\.ctx\.ds_len', fl):
+            wrong_floor.append(fl[:50])
+    rep.add('C11.R1', 'C11.R1:context_close:results-above-own-floor', bool(n_fl) and not wrong_floor,
+            'the emission loop runs while depth > ctx.ds_len of the closing context' if n_fl and not wrong_floor else
+            'context_close compares the depth with %s, not with the floor of the block that is closing: under eval the enclosing floor is 0 and '
+            'the loop pops values earlier sources left (`3`, then `#( 1 2 + #) +` fails with StackUnderflow)' % (wrong_floor or ['nothing']),
+            cc.name, cc.j['span'])
     # ... and the decision is 'is anything open?', not 'is a definition open?': with a vector, if, loop or case open the enclosing
     # block is assembling code as well (`#( [ #( 1 #) 2 ] #)` gave [ 2 ] and a stray 1).  The only construct that wants the value on
     # the stack is the enum builder
@@ -291,8 +314,19 @@ def run(rep, facts, tier):
             c = ev['callee'] or ''
             if not (c.endswith('::iter') or c.endswith('::iter_mut') or c.endswith('::into_iter')):
                 continue
+            er = f.expr_of_operand(ev['term']['args'][0])
+            # an iteration over a FIELD of one pending flow (the locals of the innermost definition) is not a search over the flows
+            inner = False
+            for x in expr_walk(er):
+                if isinstance(x, tuple) and x[0] == 'proj' and any(isinstance(n_, str) and n_ not in ('*', 'flow_stack') and not n_.isdigit()
+                                                                    and not n_.startswith('as ') for n_ in x[2]) and \
+                        ('flow_stack' in expr_str(x[1], -30) or any(isinstance(y, tuple) and y[0] == 'call' and y[1] in awrite.LOCAL_DERIVE
+                                                                     for y in expr_walk(x[1]))):
+                    inner = True
+            if inner:
+                continue
             n_it += 1
-            recv = expr_str(f.expr_of_operand(ev['term']['args'][0]), -30)
+            recv = expr_str(er, -30)
             okf = 'RangeFrom' in recv and 'fs_len' in recv
             rep.add('C11.R3', 'C11.R3:%s:flow-search-starts-at-the-floor' % fn, okf,
                     'iterates flow_stack[ctx.fs_len..]' if okf else
